@@ -25,6 +25,7 @@ package boltdb
 //@   trusted bbolt: Seek positions on the first key >= seek (byte-lexicographic) and returns that pair, or nil at the end; every key of the beacon bucket is an 8-byte round key (the bucket is only written through RoundToBytes)
 //@   modifies nothing
 //@   ensures (k == nil ==> v == nil) && (k != nil ==> len(k) == 8 && hasKey(bucketOf(c), k) && v == kvVal(bucketOf(c), k) && v != nil) && (hasKey(bucketOf(c), seek) ==> k != nil && bytesEq(k, seek))
+//@   ensures len(seek) == 8 && k == nil ==> (forall r uint64 {chain.be64(r)} :: r >= chain.rd64(seek) ==> !hasKey(bucketOf(c), chain.be64(r)))
 
 // ---- C18: trimmed bolt back-end ---------------------------------------------------------------------
 
@@ -59,6 +60,10 @@ package boltdb
 //@   ensures [C18:trimmed-seek-never-mislabels] err == nil ==> labelled(bucketOf(c.Cursor), b)
 //@   ensures [C18:trimmed-seek-of-a-stored-round-returns-that-round] err == nil && hasKey(bucketOf(c.Cursor), chain.be64(round)) ==> b.Round == round
 //@   ensures [C18:trimmed-seek-previous-is-round-minus-one-or-fails] err == nil && c.store.requiresPrevious ==> prevLinked(bucketOf(c.Cursor), b)
+// C11: the catch-up scan of a stream starts with Seek(from): when rounds at or after `from` are stored, the scan must find
+// the first of them (a "nothing stored" answer makes the stream skip everything that is stored and go live). Stated for
+// the layout without previous signatures (with them, a missing predecessor is also reported as "nothing stored").
+//@   ensures [C11,C18:trimmed-seek-reports-nothing-stored-only-when-nothing-is-stored-at-or-after-the-round] !c.store.requiresPrevious && is(err, errors.ErrNoBeaconStored) ==> (forall r uint64 {chain.be64(r)} :: r >= round ==> !hasKey(bucketOf(c.Cursor), chain.be64(r)))
 
 // ---- C13: one bolt transaction per stored beacon (atomicity of a transaction is bbolt's, assumed) --------------------
 //@ func (*trimmedStore).Put(b, ctx, beacon) (err)
